@@ -38,4 +38,8 @@ CLAIMED["C06"] = dict(
   text="Generated programs (Ising and XY, local/global/multi-target, DMM, EOM idle periods, SLM mask, several channels per basis) sampled and compared at every nanosecond with an independent renderer (M4) built from the slot list: per-channel arrays, extension padding, per-atom per-basis views (all_local True/False). Exploration.",
   note="Trusted: Waveform.samples and the slot list as the definition of the schedule; own nearest-trap lookup for DMM weights. Phase of the per-atom view compared only where exactly one non-zero pulse acts; padded tail of a channel left in EOM mode not compared per atom.",
   technique="property-based testing: generated programs, differential against a reference renderer")
+CLAIMED["C05"] = dict(
+  text="Generated programs on 1-4 atoms (Ising/XY, local/global, DMM, SLM, several bases); QutipEmulator.get_hamiltonian(t) compared entry-wise (1e-9 rel.) at every selected sample time with an independent numpy.kron construction (M5) of the documented formula from the slot list; Hermiticity 1e-12. Exploration.",
+  note="Trusted: numpy.kron, C6_coeffs.json as data, QuTiP QobjEvo evaluation at sample times. Off-diagonal entries where two non-zero pulses act on one (atom,basis) are not compared; sequences with a channel left in EOM mode before the end are skipped (undefined padded tail).",
+  technique="property-based testing: generated programs, differential against a reference Hamiltonian builder")
 NOT_YET = {}
